@@ -49,4 +49,22 @@ impl Operator {
     pub fn is_multiply_or_divide(&self) -> bool {
         matches!(self, Self::Multiply | Self::Divide)
     }
+
+    /// The priority of the operator: an operator of higher priority binds
+    /// tighter. Operators of equal priority group from left to right.
+    pub fn priority(&self) -> u8 {
+        match self {
+            Self::Multiply | Self::Divide => 5,
+            Self::Modulo => 4,
+            Self::Plus | Self::Minus => 3,
+            Self::Less
+            | Self::LessOrEqual
+            | Self::Equal
+            | Self::GreaterOrEqual
+            | Self::Greater
+            | Self::NotEqual => 2,
+            Self::And => 1,
+            Self::Or => 0,
+        }
+    }
 }
